@@ -808,3 +808,65 @@ Lemma el_open_eq : forall fuel cid w, el_open fuel cid w =
     | r => (r, w5)
     end.
 Proof. reflexivity. Qed.
+
+Lemma close_conns_eq : forall f w, close_conns (S f) w =
+  if halt w then w else
+  match l_reg (st w) with
+  | [] => w
+  | _ =>
+    match pull_gen true w with
+    | (Some (name, args), w1) =>
+        if String.eqb name "pick" then
+          match args with
+          | [AInt cid] => let '(_, w2) := el_close f cid true w1 in close_conns f w2
+          | _ => desync "expected-pick" w1
+          end
+        else desync "expected-pick" w1
+    | (None, w1) => w1
+    end
+  end.
+Proof.
+  intros. cbn [close_conns]. destruct (halt w); [reflexivity|].
+  destruct (l_reg (st w)); [reflexivity|].
+  destruct (pull_gen true w) as [[[name args]|] w1]; [|reflexivity].
+  crack_goal reflexivity.
+Qed.
+
+Lemma polling_eq : forall f w, polling (S f) w =
+  let w := emit ("g", [ASym "count"; AInt (zlen (l_reg (st w))); ABytes []]) w in
+  match pull w with
+  | (None, w1) => w1
+  | (Some (name, evs), w1) =>
+      if String.eqb name "wait" then
+        match events f evs false w1 with
+        | (RShutdown, _, w2) => close_conns f w2
+        | (RAccept, _, w2) => close_conns f w2
+        | (_, true, w2) =>
+            match chores f w2 with
+            | (RShutdown, w3) => close_conns f w3
+            | (_, w3) => polling f w3
+            end
+        | (_, false, w2) => polling f w2
+        end
+      else desync "expected-wait" w1
+  end.
+Proof.
+  intros. cbn [polling]. cbv zeta.
+  destruct (pull _) as [[[name args]|] w1]; [|reflexivity].
+  crack_goal reflexivity.
+Qed.
+
+(* the initial world *)
+Lemma init_world_spec : forall i w, init_world i = Some w ->
+  log w = [] /\ halt w = false /\ l_conns (st w) = [] /\ l_reg (st w) = [] /\
+  l_urgent (st w) = [] /\ l_low (st w) = [] /\ l_next (st w) = 0.
+Proof.
+  intros i w E. unfold init_world in E.
+  destruct i as [|[name args] r]; [discriminate|].
+  crack_hyp E ltac:(discriminate E).
+  repeat match type of E with
+    | context [match ?a with [] => _ | _ :: _ => _ end] => is_var a; destruct a; try discriminate E
+    | context [match ?a with AInt _ => _ | ABytes _ => _ | ASym _ => _ end] => is_var a; destruct a; try discriminate E
+    end.
+  destruct (take_listeners r) as [ls r']. inversion E; subst. cbn. auto 10.
+Qed.
